@@ -65,6 +65,17 @@ def run(repo, rep, tier):
   for i in s3.instances:
     i.rule = 'R3/' + i.rule.split('/', 1)[1]
     rep.instances.append(i)
+  # R5: the exhaustive side really ranks its whole feasible set (C03 enumeration rules): otherwise greedy can beat its "best"
+  from mmsa.props import c03
+  s5 = Sub(rep.prop, rep.tier, rep.repo)
+  res = c03.r1_r2_r4(repo, s5)
+  if res is not None:
+    c03.r3_pruning(repo, s5, res[0], res[2])
+  for i in s5.instances:
+    i.rule = 'R5/' + i.rule.split('/', 1)[1]
+    rep.instances.append(i)
+  for f_, m_, fl_ in s5.floors:
+    rep.floor(f_, m_, fl_)
   # R4: admitted set only through self.geo_assignments
   cls = repo.cls(search.MM)
   for name in ('exhaustive_search', 'greedy_search', 'treatment_group_generator', 'control_group_generator', 'treatment_group_size_range',
